@@ -8,24 +8,32 @@ from sa.astx import call_name, dotted, src, walk_local
 from sa.effects import accesses, class_accesses
 from sa.selftest import Mutant, Silent
 from sa.source import methods
-from sa.props._lib_b import (MiniBudget, MiniEval, MiniRaise, check_delayed_call, public_api_effects, lin_cmp, lin_cmp_text, lin_eq, linform, model_class, resolve_locals, Unsupported, clone, _Subst, single_assignment_locals)
+from sa.props._lib_b import (MiniBudget, MiniEval, MiniRaise, check_delayed_call, public_api_effects, lin_cmp, lin_cmp_text, lin_eq, linform, model_class, resolve_locals, Unsupported, clone, _Subst, single_assignment_locals, single_return)
 
 PROPERTY = "C09"
 TASK = "internet/task.py"
 BASE = "internet/base.py"
 MODNAME = "twisted.internet.task"
 C = MODNAME + ".Clock"
-TECHNIQUE = "CFG must-intervene/dominance, who-may-write kinds, finite model evaluation of helpers"
+TECHNIQUE = "CFG must-intervene/dominance with exception edges, who-may-write closure, linear forms; model lists second layer"
+RULE_KINDS = {
+    "*": "structural",
+    "model/": "bounded", "sort/ascending-stable": "bounded", "getDelayedCalls/exactly-pending": "bounded",
+}
 EXPLANATION = (
-    "Decides on Clock.advance's CFG: the clock is moved forward exactly once before any call is looked at; between the time "
-    "change, the function entry or any call-out and the next look at the head of `calls` there is a re-sort (calls may have been "
-    "scheduled, reset, delayed or cancelled meanwhile); a call is taken from the front under the exact boundary "
-    "head.getTime() <= now on a non-empty list, is removed and marked `called` before its function runs with its own "
-    "args/kw, and every removed call is run.  `_sortCalls` is evaluated on model lists (ascending by getTime, stable, "
-    "in place), `calls` is mutated only by append / sort / pop-front and is never re-bound (cancellers hold its bound "
-    "`remove`), callLater wires time = seconds()+delay, the canceller that removes the call from `calls`, and the clock's own "
-    "seconds; getDelayedCalls and seconds are evaluated on a model clock.  DelayedCall's reset/delay/getTime equations and "
-    "cancel()'s notification are decided as in C08.  Not decided: numeric float order, whole-history enumeration."
+    "Structural deciders (for-all), on a view with single-assignment temporaries substituted and private predicates / one-argument "
+    "helpers read as inlined: in Clock.advance's CFG the clock moves by `amount` exactly once before any look at `calls`; between "
+    "entry, the time change or any call-out and the next look at the head there is a re-sort (must-intervene); a call is taken "
+    "from the front under the exact boundary head.getTime() <= now (linear normal form) on a non-empty list, is removed and marked "
+    "`called` before its function runs with its own args/kw (dominance), every removed call runs and the loop re-examines `calls`; "
+    "after the time change every normal path reaches the run loop; a guard attribute set before the call-out is cleared on every "
+    "exit, the exceptional one included.  `calls` who-may-write by operation kind (append / in-place sort / pop-front, never "
+    "re-bound: cancellers hold its bound remove) and who-may-mutate through the public API; the sorter's key resolved to the "
+    "scheduled time and no reverse (list.sort is stable: creation order for ties follows from append-at-end); callLater wiring "
+    "(def-use: time = seconds()+delay, canceller removes from `calls`, the clock's own seconds); seconds() returns rightNow; "
+    "getDelayedCalls() returns `calls`; DelayedCall reset/delay/activate_delay by symbolic linear evaluation of every path, "
+    "getTime as a linear form, cancel() notifies on every live path.  Bounded second layer only (no clause rests on it alone): "
+    "the sorter, seconds() and getDelayedCalls() evaluated on model clocks.  Not decided: numeric float order."
 )
 ASSUMPTIONS = [
     "list.sort is stable (language guarantee)",
@@ -100,6 +108,46 @@ def _mentions_calls(ms, e, depth=0):
     return False
 
 
+def _sort_structure(ctx, mod, f, q):
+    """Structural decider for the sorter: one in-place sort of self.calls (list.sort, or slice assignment of sorted(self.calls)),
+    ascending (no reverse), keyed by the scheduled time (getTime, or time + delayed_time).  list.sort/sorted are stable."""
+    sites = []
+    for x in ast.walk(f):
+        if isinstance(x, ast.Call) and isinstance(x.func, ast.Attribute) and x.func.attr == "sort" and _self_attr(x.func.value, "calls"):
+            sites.append(x)
+        if isinstance(x, ast.Assign) and len(x.targets) == 1 and isinstance(x.targets[0], ast.Subscript) and _self_attr(x.targets[0].value, "calls") \
+                and isinstance(x.value, ast.Call) and dotted(x.value.func) == "sorted" and x.value.args and _self_attr(x.value.args[0], "calls"):
+            sites.append(x.value)
+    if len(sites) != 1:
+        ctx.note("sort/key-is-scheduled-time: sorter shape not recognised, clause left to sort/ascending-stable")
+        return
+    c = sites[0]
+    kw = {k.arg: k.value for k in c.keywords if k.arg}
+    rev = kw.get("reverse")
+    ctx.check(rev is None or (isinstance(rev, ast.Constant) and not rev.value), "sort/ascending", ctx.construct(q, c),
+              "`calls` is sorted in descending order: the latest call is at the front and runs first")
+    key = kw.get("key")
+    if key is None:
+        ctx.note("sort/key-is-scheduled-time: no key function (relies on DelayedCall ordering), clause left to sort/ascending-stable")
+        return
+    body, param = None, None
+    if isinstance(key, ast.Lambda) and len(key.args.args) == 1:
+        body, param = key.body, key.args.args[0].arg
+    elif isinstance(key, ast.Name) and isinstance(mod.find(key.id), ast.FunctionDef) and len(mod.find(key.id).args.args) == 1:
+        fn = mod.find(key.id)
+        body, param = single_return(fn), fn.args.args[0].arg
+    elif isinstance(key, ast.Attribute) and key.attr == "getTime":
+        body, param = ast.parse("x.getTime()").body[0].value, "x"
+    if body is None:
+        ctx.note("sort/key-is-scheduled-time: key function not recognised, clause left to sort/ascending-stable")
+        return
+    lf = linform(body)
+    ok = src(body) == f"{param}.getTime()" or (lf is not None and lin_eq(lf, ({f"{param}.time": 1, f"{param}.delayed_time": 1}, 0)))
+    ctx.check(ok, "sort/key-is-scheduled-time", ctx.construct(q, key),
+              f"`calls` is ordered by `{src(body)}`, not by the scheduled time getTime() = time + delayed_time: calls that were reset()/delay()ed "
+              "run at their old time or out of order", detail="key function resolved to its returned expression")
+
+
 def check(ctx):
     mod = ctx.mod(TASK)
     cls = ctx.cls(TASK, "Clock")
@@ -125,7 +173,14 @@ def check(ctx):
             bad = f"does not evaluate ({e})"
         except (AttributeError, TypeError, NameError) as e:
             raise Unsupported(f"Clock.seconds: model evaluation failed ({type(e).__name__}: {e})")
-        ctx.check(bad is None, "seconds/is-rightNow", C + ".seconds", f"the clock read by callLater/reset is not the one advance() moves: {bad}")
+        r = single_return(f)
+        if r is None:
+            ctx.note("seconds/is-rightNow: shape not recognised, clause left to model/seconds")
+        else:
+            ctx.check(src(r) == "self.rightNow", "seconds/is-rightNow", C + ".seconds",
+                      f"seconds() returns `{src(r)}`, not self.rightNow: the clock read by callLater/reset is not the one advance() moves",
+                      detail="the single returned expression (locals resolved)")
+        ctx.check(bad is None, "model/seconds", C + ".seconds", f"the clock read by callLater/reset is not the one advance() moves: {bad}")
 
     with ctx.section("calls ownership"):
         # ---- who may write `calls` ---------------------------------------------------------------------
@@ -212,6 +267,7 @@ def check(ctx):
                 bad = f"raises on a model clock ({e})"
             except (AttributeError, TypeError, ValueError, NameError) as e:
                 raise Unsupported(f"{q}: model evaluation failed ({type(e).__name__}: {e})")
+            _sort_structure(ctx, mod, f, q)
             ctx.check(bad is None, "sort/ascending-stable", q,
                       f"`calls` is not sorted ascending by scheduled time (getTime), stably and in place: {bad}", detail=f"{n} model lists")
 
@@ -271,6 +327,14 @@ def check(ctx):
             bad = f"does not evaluate ({e})"
         except (AttributeError, TypeError, NameError) as e:
             raise Unsupported(f"Clock.getDelayedCalls: model evaluation failed ({type(e).__name__}: {e})")
+        r = single_return(f)
+        plain = r is not None and (src(r) == "self.calls" or (isinstance(r, ast.Call) and dotted(r.func) in ("list", "tuple") and len(r.args) == 1 and src(r.args[0]) == "self.calls")
+                                   or (isinstance(r, ast.ListComp) and len(r.generators) == 1 and not r.generators[0].ifs and src(r.generators[0].iter) == "self.calls"
+                                       and src(r.elt) == src(r.generators[0].target)))
+        if plain:
+            ctx.ok("getDelayedCalls/returns-calls", C + ".getDelayedCalls", "returns `calls` (or an unfiltered copy): exactly the pending calls, given calls/ownership")
+        else:
+            ctx.note("getDelayedCalls/returns-calls: shape not recognised, clause left to getDelayedCalls/exactly-pending")
         ctx.check(bad is None, "getDelayedCalls/exactly-pending", C + ".getDelayedCalls", f"getDelayedCalls() does not list exactly the calls in `calls`: {bad}")
 
     with ctx.section("advance"):
